@@ -193,7 +193,7 @@ def window_tie(chk, ctx, rng, count):
 # --------------------------------------------------------------------------- spectra
 SIZES = {'quick': {1: 48, 2: 12, 3: 6, 4: 4}, 'thorough': {1: 120, 2: 24, 3: 9, 4: 5}}
 
-def gen_case(rng, tier, d=None, folded=None, big=False):
+def gen_case(rng, tier, d=None, folded=None, big=False, data_kind=None, mask_kind=None):
     if d is None:
         d = int(rng.choice([1, 1, 2, 2, 3, 4]))
     hi = SIZES[tier][d]
@@ -218,12 +218,47 @@ def gen_case(rng, tier, d=None, folded=None, big=False):
         elif r < 0.5: m, k = 1, 'to-1'
         else: m, k = int(rng.integers(1, n + 1)), 'random'
         ns.append(m); kinds.append(k)
+    if data_kind is None:
+        data_kind = ['dense', 'dense', 'counts', 'zero-slices', 'zero-slices', 'zero-corners', 'all-zero', 'one-entry'][int(rng.integers(8))]
     data = gen.coarse(rng.uniform(0, 1, shape) ** 2 * 100, 20)
-    if rng.random() < 0.15:
-        data[tuple(int(rng.integers(s)) for s in shape)] += 4096.0          # planted spike
-    if rng.random() < 0.1:
-        data = gen.coarse(data - 20.0, 20)                                     # negative entries are legal data
-    mk = ['corners', 'none', 'none', 'sparse', 'dense', 'single', 'line'][int(rng.integers(7))]
+    if data_kind == 'dense':
+        if rng.random() < 0.15:
+            data[tuple(int(rng.integers(s)) for s in shape)] += 4096.0          # planted spike
+        if rng.random() < 0.1:
+            data = gen.coarse(data - 20.0, 20)                                     # negative entries are legal data
+    elif data_kind == 'counts':
+        # sparse count-like data spectrum: integer counts, most bins exactly empty
+        lam = float(rng.choice([0.05, 0.3, 1.5]))
+        data = rng.poisson(lam, shape).astype(float) * rng.integers(1, 4, shape)
+    elif data_kind == 'zero-slices':
+        # whole slices along one or more axes hold exact zeros (nobody carries that many copies);
+        # with probability 1/2 symmetric under reversal so that the unfolded version of fold(S) keeps them
+        if rng.random() < 0.4:
+            data = rng.poisson(1.0, shape).astype(float)
+        sym = rng.random() < 0.5
+        for ax in range(d):
+            if rng.random() < 0.7 or ax == 0:
+                n = shape[ax] - 1
+                ks = set(int(k) for k in rng.integers(0, n + 1, size=int(rng.integers(1, max(2, (n + 1) // 2 + 1)))))
+                if sym: ks |= set(n - k for k in ks)
+                for k in ks:
+                    sl = [slice(None)] * d; sl[ax] = k; data[tuple(sl)] = 0.0
+    elif data_kind == 'zero-corners':
+        data[tuple([0] * d)] = 0.0; data[tuple(s - 1 for s in shape)] = 0.0
+        for ax in range(d):                                                      # the two end slices of one axis as well
+            if rng.random() < 0.3:
+                sl = [slice(None)] * d; sl[ax] = 0; data[tuple(sl)] = 0.0
+                sl[ax] = shape[ax] - 1; data[tuple(sl)] = 0.0
+    elif data_kind == 'all-zero':
+        data = np.zeros(shape)
+    elif data_kind == 'one-entry':
+        data = np.zeros(shape); data[tuple(int(rng.integers(s)) for s in shape)] = float(rng.integers(1, 50))
+    if mask_kind is None:
+        kinds_m = ['corners', 'none', 'none', 'sparse', 'dense', 'single', 'line']
+        if (data == 0).any():
+            kinds_m += ['on-zeros', 'on-zeros', 'on-zeros', 'zero-slice']
+        mask_kind = kinds_m[int(rng.integers(len(kinds_m)))]
+    mk = mask_kind
     mask = np.zeros(shape, dtype=bool)
     if mk == 'sparse':
         mask = rng.random(shape) < 0.06
@@ -234,11 +269,34 @@ def gen_case(rng, tier, d=None, folded=None, big=False):
     elif mk == 'line':
         ax = int(rng.integers(d)); sl = [int(rng.integers(s)) for s in shape]; sl[ax] = slice(None)
         mask[tuple(sl)] = True
+    elif mk == 'on-zeros':
+        # 1..3 masked entries, all of them on bins holding an exact zero (excluded empty bins)
+        z = np.argwhere(data == 0)
+        for r in rng.permutation(len(z))[:int(rng.integers(1, 4))]:
+            mask[tuple(z[r])] = True
+    elif mk == 'zero-slice':
+        # a masked entry inside a slice that is zero throughout (falls back to any zero bin)
+        cand = []
+        for ax in range(d):
+            for k in range(shape[ax]):
+                sl = [slice(None)] * d; sl[ax] = k
+                if not data[tuple(sl)].any():
+                    cand.append((ax, k))
+        if cand:
+            ax, k = cand[int(rng.integers(len(cand)))]
+            idx = [int(rng.integers(s)) for s in shape]; idx[ax] = k
+            mask[tuple(idx)] = True
+        else:
+            z = np.argwhere(data == 0)
+            if len(z):
+                mask[tuple(z[int(rng.integers(len(z)))])] = True
     mask_corners = (mk != 'none') and (mk == 'corners' or rng.random() < 0.5)
+    if mk in ('on-zeros', 'zero-slice') and rng.random() < 0.5:
+        mask_corners = False
     if folded is None:
         folded = bool(rng.random() < 0.4)
     return dict(kind='project', d=d, shape=shape, ns=ns, ns_kinds=kinds, data=data, mask=mask, mask_corners=mask_corners,
-                mask_kind=mk, folded=folded)
+                mask_kind=mk, data_kind=data_kind, folded=folded)
 
 def build(dadi, c):
     """the Spectrum the case describes (unfolded source S, and F = S.fold() when the case is folded)"""
@@ -247,7 +305,7 @@ def build(dadi, c):
 
 def small(c):
     return dict(kind=c['kind'], d=c['d'], shape=list(c['shape']), ns=list(c['ns']), folded=bool(c['folded']),
-                mask_corners=bool(c['mask_corners']), mask_kind=c.get('mask_kind'), data=np.asarray(c['data'], dtype=float),
+                mask_corners=bool(c['mask_corners']), mask_kind=c.get('mask_kind'), data_kind=c.get('data_kind'), data=np.asarray(c['data'], dtype=float),
                 mask=np.asarray(c['mask'], dtype=int), axis=c.get('axis'))
 
 def cmp_spec(impl, mdata, mmask, mfolded):
@@ -271,7 +329,7 @@ def check_project_case(chk, ctx, c, do_model=True):
     inp = small(c)
     fs = build(dadi, c)
     ns = list(c['ns'])
-    key = ('project', c['d'], c['folded'], c.get('mask_kind'), tuple(sorted(set(c.get('ns_kinds', [])))), max(c['shape']) > 20)
+    key = ('project', c['d'], c['folded'], c.get('mask_kind'), c.get('data_kind'), tuple(sorted(set(c.get('ns_kinds', [])))), max(c['shape']) > 20)
     src_data = np.array(fs.data, dtype=float); src_mask = np.array(np.ma.getmaskarray(fs))
     try:
         dadi.Numerics._projection_cache.clear() if c.get('cold') else None
@@ -322,6 +380,23 @@ def check_project_case(chk, ctx, c, do_model=True):
             r = S.project(ns).fold()
         except Exception as e:
             chk.fail('project:folded:raises:%s' % type(e).__name__, 'fold/unfold route raises %r' % (e,), inp); q = r = None
+        # independent of Spectrum.project: exact hypergeometric projection (data and mask spread) of unfold(F), then fold
+        try:
+            U = fs.unfold()
+            ud, umk = ref_project(np.asarray(U.data, dtype=float), np.array(np.ma.getmaskarray(U)), ns)
+            ref = dadi.Spectrum(ud, mask=umk, mask_corners=False).fold()
+            refm = np.array(np.ma.getmaskarray(ref))
+            if not np.array_equal(pmask, refm):
+                bad = np.argwhere(pmask != refm)[0].tolist()
+                chk.fail('project:folded:mask-ref', 'mask of folded.project(ns) differs from fold(exact projection of unfold) at %d entries, e.g. %r (impl %r): '
+                         'a masked source entry must mask exactly the entries it can contribute to' % (int(np.sum(pmask != refm)), bad, bool(pmask[tuple(bad)])), inp)
+            else:
+                um2 = ~refm; sc2 = float(np.max(np.abs(np.asarray(ref.data)))) or 1.0
+                e2 = float(np.max(np.abs(pdata[um2] - np.asarray(ref.data)[um2]))) if um2.any() else 0.0
+                if e2 > RTOL * sc2:
+                    chk.fail('project:folded:entry', 'folded.project(ns) differs from fold(exact projection of unfold) by %.3g (scale %.3g)' % (e2, sc2), inp)
+        except Exception as e:
+            chk.fail('project:folded:ref-raises:%s' % type(e).__name__, 'unfold/fold around the reference projection raises %r' % (e,), inp)
         if q is not None:
             qm = np.array(np.ma.getmaskarray(q)); rmk = np.array(np.ma.getmaskarray(r))
             um = ~pmask
@@ -345,7 +420,8 @@ def check_project_case(chk, ctx, c, do_model=True):
             ok, what, err = cmp_spec(p, md, mm, mf)
             if ok: chk.k_ok(op)
             else: chk.k_bad(op, inp, dict(data=pdata, mask=pmask.astype(int), folded=bool(p.folded)), what, err)
-    chk.stat('dim:%d' % c['d']); chk.stat('folded:%s' % c['folded']); chk.stat('mask:%s' % c.get('mask_kind'))
+    chk.stat('dim:%d' % c['d']); chk.stat('folded:%s' % c['folded']); chk.stat('mask:%s' % c.get('mask_kind')); chk.stat('data:%s' % c.get('data_kind'))
+    chk.stat('masked-entry-on-zero-data:%s' % bool((src_mask & (src_data == 0)).any()))
     for k in c.get('ns_kinds', []): chk.stat('ns:%s' % k)
     chk.sample(dict(op='project', shape=c['shape'], ns=ns, folded=c['folded'], mask=c.get('mask_kind'), masked_in=int(src_mask.sum()), masked_out=int(pmask.sum())))
 
@@ -360,7 +436,7 @@ def check_one_axis_case(chk, ctx, c):
         p = fs._project_one_axis(m, ax)
     except Exception as e:
         chk.fail('_project_one_axis:raises:%s' % type(e).__name__, '_project_one_axis(%d, %d) raises %r' % (m, ax, e), inp); return
-    chk.l3(('one-axis', c['d'], ax, c.get('mask_kind')))
+    chk.l3(('one-axis', c['d'], ax, c.get('mask_kind'), c.get('data_kind')))
     ns1 = [s - 1 for s in c['shape']]; ns1[ax] = m
     rd, rm = ref_project(src_data, src_mask, ns1)
     pdata = np.asarray(p.data); pmask = np.array(np.ma.getmaskarray(p))
@@ -534,24 +610,136 @@ def l3_neutral(chk, ctx, rng, count):
             if err > RTOL * theta:
                 chk.fail('project:neutral', 'neutral spectrum θ/i (n=%d) projected to m=%d is not θ/j: max error %.3g (θ=%.6g)' % (n, m, err, theta), inp)
 
-def l3_lowpass(chk, ctx, rng, count):
-    """LowPass.projection_matrix(n, m, F=0) is the matrix of rows `_cached_projection(m, n, i)`"""
-    dadi = ctx['dadi']
+def _lowpass(chk):
     try:
         import importlib
-        LP = importlib.import_module('dadi.LowPass.LowPass')
+        return importlib.import_module('dadi.LowPass.LowPass')
     except Exception as e:
-        chk.notes.append('LowPass not importable: %r' % (e,)); return
+        chk.notes.append('LowPass not importable: %r' % (e,)); return None
+
+def check_lowpass_f0(chk, ctx, LP, n, m, history, rng=None):
+    """one F = 0 call of LowPass.projection_matrix in a given call history: entrywise hypergeometric (L3, exact comb weights),
+    equal to the model's rows (K), consistent with Spectrum.project on a random spectrum and on unit spectra"""
+    dadi = ctx['dadi']
+    inp = dict(kind='lowpass', n=n, m=m, history=[list(h) for h in history])
+    try:
+        M = np.array(LP.projection_matrix(n, m, 0), dtype=float)
+    except Exception as e:
+        chk.fail('LowPass.projection_matrix:raises:%s' % type(e).__name__, 'projection_matrix(%d,%d,0) raises %r after calls %r' % (n, m, e, history), inp)
+        return None
+    chk.l3(('lowpass', n, m, len(history), tuple(sorted(set(round(h[2], 3) for h in history)))[:3]))
+    H = W(n, m)
+    if M.shape != H.shape or not np.all(np.isfinite(M)) or float(np.max(np.abs(M - H))) > RTOL:
+        err = float(np.max(np.abs(M - H))) if M.shape == H.shape else float('inf')
+        chk.fail('LowPass.projection_matrix:value', 'projection_matrix(%d,%d,F=0) after the calls %r is not the hypergeometric matrix (max abs error %.3g)'
+                 % (n, m, [tuple(h) for h in history], err), inp)
+    elif rng is not None:
+        x = gen.coarse(rng.uniform(0, 10, n + 1), 20)
+        try:
+            p = dadi.Spectrum(x, mask_corners=False).project([m])
+            if float(np.max(np.abs(x.dot(M) - np.asarray(p.data)))) > RTOL * float(np.max(np.abs(x))) * (n + 1):
+                chk.fail('LowPass.projection_matrix:vs-project', 'x·projection_matrix(%d,%d,0) differs from Spectrum(x).project([%d])' % (n, m, m), dict(inp, x=x))
+        except Exception as e:
+            chk.fail('project:raises:%s' % type(e).__name__, 'Spectrum.project raises %r' % (e,), dict(inp, x=x))
+    if have_driver(ctx):
+        out = ctx['driver'].ask('projmat %d %d' % (m, n))
+        if out.startswith('ok '):
+            model = np.array([parse_floats(r) for r in out[3:].split(';')])
+            if M.shape == model.shape and float(np.max(np.abs(M - model))) <= RTOL: chk.k_ok('lowpass:projection_matrix')
+            else: chk.k_bad('lowpass:projection_matrix', inp, M, model, None)
+        else:
+            chk.k_bad('lowpass:projection_matrix', inp, M, out[:60], None)
+    return M
+
+def l3_lowpass_history(chk, ctx, rng, count):
+    """LowPass.projection_matrix is called once per population with that population's inbreeding coefficient; the F = 0 operator
+    must be the hypergeometric one whatever was computed before: F > 0 first then F = 0 (same sizes), the reverse, several F values,
+    other sizes in between, repeated calls.  Sizes are even (diploid genotype partitions) for the F > 0 calls."""
+    LP = _lowpass(chk)
+    if LP is None:
+        return
+    used = set()
+    for it in range(count):
+        # fresh sizes whenever possible, so that the very first call for these sizes in this process has F > 0
+        for _ in range(20):
+            n = 2 * int(rng.integers(1, 10)); m = 2 * int(rng.integers(1, n // 2 + 1))
+            if (n, m) not in used: break
+        used.add((n, m))
+        Fs = [float(f) for f in rng.choice([0.05, 0.25, 0.5, 0.9, 1.0], size=2, replace=False)]
+        n2 = 2 * int(rng.integers(1, 8)); m2 = 2 * int(rng.integers(1, n2 // 2 + 1))
+        pattern = [['F', '0'], ['F', 'G', '0'], ['F', 'other', '0'], ['0', 'F', '0'], ['F', '0', 'F', '0'], ['otherF', 'F', '0', 'other0']][it % 6]
+        history = []; firstF = {}
+        chk.stat('lowpass_history:' + '-'.join(pattern))
+        for step in pattern:
+            if step == '0':
+                check_lowpass_f0(chk, ctx, LP, n, m, history, rng); history.append((n, m, 0.0))
+            elif step == 'other0':
+                check_lowpass_f0(chk, ctx, LP, n2, m2, history, rng); history.append((n2, m2, 0.0))
+            else:
+                nn, mm, F = {'F': (n, m, Fs[0]), 'G': (n, m, Fs[1]), 'other': (n2, m2, Fs[0]), 'otherF': (n2, m2, Fs[1])}[step]
+                inp = dict(kind='lowpass', n=nn, m=mm, F=F, history=[list(h) for h in history])
+                try:
+                    M = np.array(LP.projection_matrix(nn, mm, F), dtype=float)
+                except Exception as e:
+                    chk.fail('LowPass.projection_matrix:raises:%s' % type(e).__name__, 'projection_matrix(%d,%d,%g) raises %r' % (nn, mm, F, e), inp)
+                    history.append((nn, mm, F)); continue
+                chk.l3(('lowpass-F', nn, mm, F))
+                # same arguments, same answer (whatever happened in between)
+                k = (nn, mm, F)
+                if k in firstF and (M.shape != firstF[k].shape or float(np.max(np.abs(M - firstF[k]))) > RTOL):
+                    chk.fail('LowPass.projection_matrix:history', 'projection_matrix(%d,%d,%g) returns different matrices before and after the calls %r'
+                             % (nn, mm, F, [tuple(h) for h in history]), inp)
+                firstF.setdefault(k, M)
+                history.append(k)
+        # composition of two F = 0 operators built in this history: n -> k -> m equals n -> m
+        if m < n:
+            kmid = int(rng.integers(m, n + 1))
+            A = check_lowpass_f0(chk, ctx, LP, n, kmid, history); history.append((n, kmid, 0.0))
+            B = check_lowpass_f0(chk, ctx, LP, kmid, m, history); history.append((kmid, m, 0.0))
+            C = check_lowpass_f0(chk, ctx, LP, n, m, history)
+            if A is not None and B is not None and C is not None and A.shape[1] == B.shape[0] and float(np.max(np.abs(A.dot(B) - C))) > RTOL:
+                chk.fail('LowPass.projection_matrix:compose', 'projection_matrix %d->%d->%d differs from %d->%d (F=0)' % (n, kmid, m, n, m),
+                         dict(kind='lowpass', n=n, m=m, mid=kmid, history=[list(h) for h in history]))
+
+def l3_lowpass(chk, ctx, rng, count):
+    """LowPass.projection_matrix(n, m, F=0) is the matrix of rows `_cached_projection(m, n, i)` (any parity of the sizes)"""
+    LP = _lowpass(chk)
+    if LP is None:
+        return
     for _ in range(count):
         n = int(rng.integers(1, 40)); m = int(rng.integers(1, n + 1))
-        inp = dict(kind='lowpass', n=n, m=m)
-        try:
-            M = np.asarray(LP.projection_matrix(n, m, 0))
-        except Exception as e:
-            chk.fail('LowPass.projection_matrix:raises:%s' % type(e).__name__, 'projection_matrix(%d,%d,0) raises %r' % (n, m, e), inp); continue
-        chk.l3(('lowpass', n, m))
-        if M.shape != (n + 1, m + 1) or float(np.max(np.abs(M - W(n, m)))) > RTOL:
-            chk.fail('LowPass.projection_matrix:value', 'projection_matrix(%d,%d,0) is not the hypergeometric matrix' % (n, m), inp)
+        check_lowpass_f0(chk, ctx, LP, n, m, [], rng)
+
+def order_weights(chk, ctx, rng, nmax):
+    """call order must not matter: cache emptied, then larger n first / shuffled order; `Spectrum.project` cold with the large
+    size first, then smaller ones warm, then the large one again"""
+    dadi = ctx['dadi']; N = dadi.Numerics
+    trip = [(m, n, i) for n in range(1, nmax + 1) for m in range(1, n + 1) for i in range(n + 1)]
+    for name, seq in (('descending', trip[::-1]), ('shuffled', [trip[k] for k in rng.permutation(len(trip))])):
+        N._projection_cache.clear()
+        for (m, n, i) in seq:
+            check_row(chk, dadi, m, n, i, None)
+        chk.l3(('weights-order', name, nmax)); chk.stat('weights_order:' + name, len(seq))
+    for it in range(6):
+        n = int(rng.integers(12, 40)); x = gen.coarse(rng.uniform(0, 9, n + 1), 20)
+        fs = dadi.Spectrum(x, mask_corners=False)
+        ms = sorted(set(int(v) for v in rng.integers(1, n + 1, size=4)), reverse=bool(it % 2))
+        N._projection_cache.clear()
+        first = {}
+        for rep in range(2):
+            for m in ms:
+                inp = dict(kind='project', d=1, shape=[n + 1], ns=[m], folded=False, mask_corners=False, mask_kind='none', data=x, mask=np.zeros(n + 1, int))
+                try:
+                    p = np.asarray(fs.project([m]).data, dtype=float)
+                except Exception as e:
+                    chk.fail('project:raises:%s' % type(e).__name__, 'Spectrum.project([%d]) raises %r' % (m, e), inp); continue
+                chk.l3(('project-order', n, m, rep))
+                ex = x.dot(W(n, m))
+                if float(np.max(np.abs(p - ex))) > RTOL * float(np.max(np.abs(ex))):
+                    chk.fail('project:entry', 'project([%d]) from n=%d (call order %r, repetition %d) is not the hypergeometric projection' % (m, n, ms, rep), inp)
+                if m in first and not np.array_equal(first[m], p):
+                    chk.fail('project:history', 'project([%d]) from n=%d gives different results cold and warm' % (m, n), inp)
+                first.setdefault(m, p)
 
 def l3_attrs(chk, ctx, rng, count):
     """labels and extrap_x survive; int-like ns types are accepted"""
@@ -598,6 +786,16 @@ def run(chk, ctx):
         c = gen_case(rng, tier)
         c['cold'] = bool(it % 5 == 0)
         check_project_case(chk, ctx, c)
+    zk = ['counts', 'zero-slices', 'zero-corners', 'all-zero', 'one-entry', 'zero-slices']
+    for it in range(96 if tier == 'quick' else 480):      # exact zeros in the data, masked entries on them: 1-D..4-D
+        c = gen_case(rng, tier, d=1 + it % 4, folded=bool((it // 4) % 3 == 2), data_kind=zk[(it // 12) % 6],
+                     mask_kind=['on-zeros', 'zero-slice', 'on-zeros', 'single'][(it // 4) % 4] if zk[(it // 12) % 6] != 'dense' else None)
+        c['cold'] = bool(it % 7 == 0)
+        check_project_case(chk, ctx, c)
+    for it in range(24 if tier == 'quick' else 120):
+        c = gen_case(rng, tier, d=1 + it % 4, folded=False, data_kind=zk[it % 6], mask_kind=['zero-slice', 'on-zeros'][it % 2])
+        c['axis'] = int(rng.integers(c['d']))
+        check_one_axis_case(chk, ctx, c)
     for it in range(3 if tier == 'quick' else 12):        # large 1-D (n up to 200)
         c = gen_case(rng, tier, d=1, big=True); c['cold'] = False
         check_project_case(chk, ctx, c)
@@ -608,7 +806,9 @@ def run(chk, ctx):
     check_refusals(chk, ctx, rng, 36 if tier == 'quick' else 240)
     l3_compose_and_order(chk, ctx, rng, 100 if tier == 'quick' else 600)
     l3_neutral(chk, ctx, rng, 42 if tier == 'quick' else 280)
+    l3_lowpass_history(chk, ctx, rng, 24 if tier == 'quick' else 120)     # before any plain F = 0 call touches these sizes
     l3_lowpass(chk, ctx, rng, 30 if tier == 'quick' else 200)
+    order_weights(chk, ctx, rng, 12 if tier == 'quick' else 20)
     l3_attrs(chk, ctx, rng, 18 if tier == 'quick' else 90)
     chk.stats['exhaustive'] = True
     chk.assumptions += ['exhaustive: true for the weight table 1 <= m <= n <= %d (every i, every j)' % nmax]
@@ -627,6 +827,23 @@ def replay(chk, ctx, data):
         ctx['dadi'].Numerics._projection_cache.clear()
         chk.l3(('weights', n, m))
         check_row(chk, ctx['dadi'], m, n, i, model)
+    elif kind == 'lowpass':
+        LP = _lowpass(chk)
+        hist = [tuple(h) for h in inp.get('history', [])]
+        done = []
+        for (n, m, F) in hist:                       # re-create the call history in this fresh process
+            if F == 0:
+                check_lowpass_f0(chk, ctx, LP, int(n), int(m), done)
+            else:
+                LP.projection_matrix(int(n), int(m), float(F))
+            done.append((int(n), int(m), float(F)))
+        if inp.get('F') in (None, 0, 0.0):
+            if inp.get('mid') is not None:
+                A = check_lowpass_f0(chk, ctx, LP, int(inp['n']), int(inp['mid']), done)
+                B = check_lowpass_f0(chk, ctx, LP, int(inp['mid']), int(inp['m']), done)
+            check_lowpass_f0(chk, ctx, LP, int(inp['n']), int(inp['m']), done)
+        else:
+            run(chk, ctx)
     elif kind in ('project', 'compose', 'attrs', 'refusal', 'refusal-one-axis'):
         c = dict(inp); c['data'] = arr(inp['data']); c['mask'] = arr(inp['mask'], int).astype(bool); c['kind'] = 'project'
         if kind == 'project' and inp.get('axis') is not None:
